@@ -4,32 +4,45 @@ from translators import tr_c08
 PID = "C08"
 CLAIM = True
 MANIFEST_TEXT = (
-    "Lean 4 theorems over the reals about an executable model of the closed-form eigenvalue code whose formulas and "
-    "threshold constants are regenerated from fmatrixev.hh on every run: the 2x2 closed form returns the ordered roots "
-    "of the characteristic polynomial summing to the trace (ev2_roots); with the code's identity threshold the returned "
-    "vectors are unit, orthogonal eigenvectors in the general branch and have residual below the threshold in the "
-    "special case (ev2_vectors, ev2_vectors_ident); the whole 2x2 routine (max-norm preconditioning, closed form, "
-    "threshold, column choice) is exactly equivariant under scaling of the matrix (ev2_scale_invariant); cross products of two rows of A-lambda*I lie in its kernel and eig0 "
-    "returns a unit eigenvector in the rank-2 case; the 3x3 values are ascending, sum to the trace, scale exactly with "
-    "the matrix, and are roots of the characteristic polynomial for diagonal matrices and in the trigonometric branch "
-    "(ev3_roots_partial, assuming |det B|/2 <= 1); the row-major/column-major hand-over to LAPACK is a transposition "
-    "that is harmless for symmetric input and turns right into left eigenvectors for general input.  Each run executes "
-    "the real routines (float/double/long double, sizes 1..8, closed form and LAPACK, scales 2^-498..2^498) on >= 24k "
-    "generated matrices; a binary128 oracle decides order, trace, eigenvalue error, residual, unit norm, orthogonality, "
-    "agreement of the two entry points and scale equivariance, and power sums / A v = lambda v for the non-symmetric "
-    "routines; exact cases (2x2 with rational square roots, 3x3 diagonal branch, LAPACK hand-over through a recording "
-    "fake) are compared bit-for-bit with the Lean model.")
+    "Lean 4 theorems over the reals about an executable model of the closed-form eigenvalue code whose formulas, "
+    "threshold constants and the 3x3 determinant block are regenerated from fmatrixev.hh / densematrix.hh on every run. "
+    "2x2: the closed form returns the ordered roots of the characteristic polynomial summing to the trace (ev2_roots); "
+    "with the code's identity threshold the returned vectors are unit, orthogonal eigenvectors in the general branch "
+    "and have residual below the threshold in the special case (ev2_vectors, ev2_vectors_ident); the whole routine "
+    "(max-norm preconditioning, closed form, threshold, column choice) is exactly equivariant under scaling "
+    "(ev2_scale_invariant); both entry points agree (ev2_entry_points_agree).  3x3: for every symmetric matrix not "
+    "treated as diagonal the three returned values are the whole spectrum with multiplicity - the characteristic "
+    "polynomial factors as (t-l0)(t-l1)(t-l2), with no assumption on r, whose clamp is proved inactive using Mathlib's "
+    "spectral theorem (ev3_spectrum, ev3_clamp_inactive); the complete eigenvector construction - eig0 on the simple "
+    "extreme eigenvalue selected by the sign of r, orthoComp, eig1 with all its branches on the reduced 2x2 system, "
+    "cross product, stable sort of the pairs - returns unit, mutually orthogonal vectors with (A - l_i I) v_i = 0, "
+    "repeated eigenvalues included (ev3_vectors); in the diagonal special case coordinate vectors with residual at most "
+    "sqrt(eps) times the max norm are returned (ev3_vectors_diag); values are ascending, sum to the trace, both entry "
+    "points agree, and values and vectors scale exactly with the matrix (ev3_ascending, ev3_trace, "
+    "ev3_entry_points_agree, ev3_scaling_exact); 1x1 is exact (ev1_exact).  The row-major/column-major hand-over to "
+    "LAPACK is a transposition that is harmless for symmetric input and turns right into left eigenvectors for general "
+    "input (lapack_handover_*).  Each run executes the real routines (float/double/long double, sizes 1..8, closed form "
+    "and LAPACK, scales 2^-498..2^498) on >= 24k generated matrices; a binary128 oracle decides order, trace, eigenvalue "
+    "error, residual, unit norm, orthogonality, agreement of the two entry points and scale equivariance, and power "
+    "sums / A v = lambda v for the non-symmetric routines; the same generic Lean model run over IEEE double must "
+    "reproduce the eigenvalues and eigenvectors of the C++ double closed-form code (1x1, 2x2, 3x3, all branches; "
+    "quantised to 2^-24 of the scale) on every well-separated generated case, and exact cases (2x2 with rational "
+    "square roots, 3x3 diagonal branch, LAPACK hand-over through a recording fake) are compared bit-for-bit.")
 MANIFEST_NOTE = (
     "Partial by nature: floating-point accuracy (residual sizes, orthogonality tolerances) is measured by the harness "
     "on generated inputs, not proved; the Lean theorems are exact-arithmetic statements about the model (sqrt/acos/cos "
-    "as real functions).  Trusted: Lean kernel (+propext/Classical.choice/Quot.sound), Mathlib, tr_c08.py, the "
-    "hand-written control flow of the model (tied by bit-exact differential runs on exact inputs only), LAPACK/OpenBLAS, "
-    "libquadmath as reference arithmetic, g++/ASan/UBSan.  Not modelled: eig1/orthoComp (second and third 3x3 "
-    "eigenvector), LAPACK itself.  Magnitudes exercised: 2^-498..2^498 (1e-150..1e150) for double and long double, "
-    "2^-120..2^120 for float (its whole normal range), on all paths; this relies on the max-norm preconditioning of the "
-    "2x2 path (fixes/C08_ev2_scaling.patch), without which the squares formed by the 2x2 closed form under/overflow.")
-TECHNIQUE = ("Lean 4 proof over a generic closed-form model + translator for formulas and thresholds + differential "
-             "correspondence (bit-exact on exact inputs) + binary128 property oracle")
+    "as real functions).  Trusted: Lean kernel (+propext/Classical.choice/Quot.sound), Mathlib (incl. the spectral "
+    "theorem for Hermitian matrices), tr_c08.py, the hand-written control flow of the model (tied by the double-precision "
+    "differential run on all closed-form paths and by bit-exact runs on exact inputs), LAPACK/OpenBLAS, libquadmath as "
+    "reference arithmetic, g++/ASan/UBSan, glibc libm (acos/cos/sqrt are the same functions in harness and driver).  "
+    "Not modelled: LAPACK itself; the float and long double instantiations of the closed form are tied by the oracle and "
+    "the exact cases only (the C++ float path mixes double literals into float arithmetic).  In the nearly diagonal case "
+    "0 < p1 <= eps the 3x3 code returns the diagonal by design; there the statement is the residual bound, not exact "
+    "roots.  Magnitudes exercised: 2^-498..2^498 (1e-150..1e150) for double and long double, 2^-120..2^120 for float, on "
+    "all paths; this relies on the max-norm preconditioning of the 2x2 path (fixes/C08_ev2_scaling.patch).")
+TECHNIQUE = ("Lean 4 proof over a generic closed-form model (reals) + translator for formulas, thresholds and the 3x3 "
+             "determinant + differential correspondence (same model over IEEE double on all closed-form paths, bit-exact "
+             "on exact inputs) + binary128 property oracle")
 TRANSLATORS = [tr_c08.translate]
 HARNESS = dict(
     sources=["cxx_c08.cc"],
@@ -45,7 +58,10 @@ RULE = ("cases: sym = symmetric n x n (n=1..3 closed form, 4..8 LAPACK, and LAPA
         "integers} and structures {random rotations incl. nearly-identity and 45 degree, exactly diagonal, nearly diagonal "
         "(perturbation 1e-2..1e-20), single plane rotation, small integer matrices}, normalised to max entry in [1,2) and "
         "executed at scale 2^k, k over the whole supported range with bias to both ends, plus the same matrix at 2^0 for "
-        "scale equivariance; ev2x/ev3x = exact integer/dyadic inputs with power-of-two max norm (Pythagorean discriminants, near-identity around the "
+        "scale equivariance; dense/patterned 2x2 and 3x3 double matrices (uniform, small integers, eighths, zero patterns "
+        "that decouple a coordinate, dominant diagonal); route cfq (double, n <= 3, spectrum with relative gaps >= 1/64 as "
+        "decided by the binary128 reference at generation time): eigenvalues of both entry points and sign-normalised "
+        "eigenvectors quantised to 2^-24 of the scale must equal those of the Lean model run over IEEE double; ev2x/ev3x = exact integer/dyadic inputs with power-of-two max norm (Pythagorean discriminants, near-identity around the "
         "64 eps threshold, 3x3 off-diagonals around sqrt(eps)) compared bit-for-bit with the model; hand* = LAPACK hand-over "
         "through a recording fake ?syev/?geev; nsd/nsf = non-symmetric routines on Q T Q^T (real Schur form with and "
         "without 2x2 rotation blocks), integer triangular matrices and embedded rotations.  Oracle tolerances: eigenvalue "
@@ -58,19 +74,25 @@ RULE = ("cases: sym = symmetric n x n (n=1..3 closed form, 4..8 LAPACK, and LAPA
         "distinct = distinct op lines; non-trivial = every case except 1x1 matrices and hand-over ops that never reach LAPACK")
 ASSUMPTIONS = [
     "the Lean model lean/DuneVerif/Model/C08.lean is hand-written control flow around translated formulas; its fidelity "
-    "rests on the bit-exact differential run on exact inputs (ev2x, ev3x, hand*) only",
+    "rests on the differential runs: the model over IEEE double against the C++ double code on all closed-form paths "
+    "(route cfq, quantised to 2^-24) and bit-exact runs on exact inputs (ev2x, ev3x, hand*)",
+    "the double-precision differential run assumes that g++ -O0 on x86-64 evaluates double expressions without excess "
+    "precision or contraction and that harness and driver use the same libm; cases are restricted to well-separated "
+    "spectra so that ulp-level re-arrangements of the source do not change the quantised answer",
     "floating-point accuracy is decided by the harness oracle on generated inputs; it is not proved",
     "formulas and thresholds (p, p2, q, clamp, eigenvalue assignments, identity threshold, candidate columns, cross "
     "product, 3x3 p1/q/p2/p/r/phi/eigenvalue formulas, diagonal thresholds, sort flag) are regenerated from fmatrixev.hh "
-    "by tools/translators/tr_c08.py",
+    "by tools/translators/tr_c08.py, and so is the rows()==3 block of DenseMatrix::determinant (densematrix.hh)",
     "magnitude range exercised on every path: 2^-498..2^498 (double, long double), 2^-120..2^120 (float); base matrices "
     "are normalised to max entry in [1,2) and multiplied by an exact power of two",
     "bit-exact 2x2 cases use matrices whose max norm is a power of two, so that the preconditioning division is exact",
-    "ev3_roots is proved in _partial form (diagonal matrices; trigonometric branch assuming the unclamped r in [-1,1])",
+    "ev3_spectrum (exact roots) excludes by design the nearly diagonal case 0 < p1 <= eps of the scaled matrix, where the "
+    "code returns the diagonal as an approximation; ev3_vectors_diag bounds the residual there by sqrt(eps) * max norm",
     "LAPACK (OpenBLAS) is trusted; a recording fake ?syev/?geev is interposed only for the hand-over cases",
 ]
-TRUSTED = ["g++/libstdc++, ASan/UBSan, LAPACK/OpenBLAS, libquadmath (__float128) as oracle arithmetic",
-           "translator tr_c08.py", "harness/cxx_c08.cc + Driver/C08.lean parsing/printing", "Mathlib (Real.sqrt, arccos, cos)"]
+TRUSTED = ["g++/libstdc++, ASan/UBSan, LAPACK/OpenBLAS, libquadmath (__float128) as oracle arithmetic, glibc libm",
+           "translator tr_c08.py", "harness/cxx_c08.cc + Driver/C08.lean parsing/printing, Lean's Float (IEEE double)",
+           "Mathlib (Real.sqrt, arccos, cos, spectral theorem for Hermitian matrices)"]
 ENV = {"OPENBLAS_NUM_THREADS": "1", "OMP_NUM_THREADS": "1"}
 
 
